@@ -490,7 +490,7 @@ PROPS = {
     "C15": seq_loom_property(),
     "C16": type_property,
     "C17": seq_loom_property(),
-    "C18": seq_property(),
+    "C18": seq_loom_property(),
     "C19": seq_property(miri=True),
     "C20": seq_property(miri=True),
 }
